@@ -151,3 +151,25 @@ pub fn vec_remove_range<T>(v: &mut Vec<T>, a: usize, b: usize)
 {
     v.drain(a..b);
 }
+
+// integer helpers without a vstd spec (needed by banded.rs; exact mathematical contracts)
+pub assume_specification<T: Ord> [core::cmp::min::<T>] (a: T, b: T) -> (r: T)
+    ensures r == (if b.cmp_spec(&a) == Ordering::Less { b } else { a });
+pub assume_specification<T: Ord> [core::cmp::max::<T>] (a: T, b: T) -> (r: T)
+    ensures r == (if b.cmp_spec(&a) == Ordering::Less { a } else { b });
+pub assume_specification [isize::unsigned_abs] (a: isize) -> (r: usize)
+    ensures r == (if a >= 0 { a as int } else { -(a as int) });
+
+// ---------------------------------------------------------------- order hypotheses (pivot selection)
+pub open spec fn lt<T: PartialOrd>(a: T, b: T) -> bool { a.partial_cmp_spec(&b) == Some(Ordering::Less) }
+pub open spec fn gt<T: PartialOrd>(a: T, b: T) -> bool { a.partial_cmp_spec(&b) == Some(Ordering::Greater) }
+/// H_order: `<` is a strict partial order compatible with `>` (true of NaN-free floats, rationals, integers)
+pub open spec fn h_order<T: PartialOrd>() -> bool {
+    &&& T::obeys_partial_cmp_spec()
+    &&& forall|a: T, b: T, c: T| #[trigger] lt(a, b) && #[trigger] lt(b, c) ==> lt(a, c)
+    &&& forall|a: T, b: T| #[trigger] gt(a, b) == lt(b, a)
+    &&& forall|a: T| !#[trigger] lt(a, a)
+}
+
+/// |0| = 0 (so that a magnitude above zero certifies a non-zero value)
+pub open spec fn h_abs<T: Signed>() -> bool { T::zero_spec().abs_spec() == T::zero_spec() }
